@@ -317,6 +317,45 @@ def main():
             if worst_t > 1.0:
                 ck.violation("golden-rule", "tensor",
                              dict(rp, err=raw_t, err_over_tol=worst_t), rp)
+        # a cut-off TIME means the same interval of integration on every
+        # grid: tensors cut at the same time on the 1 fs and on the 0.5 fs
+        # grid agree within the discretisation error estimated above
+        if not composite and not valuedef:
+            from quantarhei.qm import RedfieldRelaxationTensor
+            tcut = 3.0 * float(numpy.max(cort))
+            with ck.guarded("golden-rule", "cutoff-time", rp, rp):
+                Rc = []
+                for agc in (ag, ag_f):
+                    hc = agc.get_Hamiltonian()
+                    hc.protect_basis()
+                    try:
+                        with qr.eigenbasis_of(hc):
+                            RTc = RedfieldRelaxationTensor(
+                                hc, agc.get_SystemBathInteraction(),
+                                cutoff_time=tcut)
+                            Rc.append(numpy.array(RTc.data))
+                    finally:
+                        hc.unprotect_basis()
+                worst_c = raw_c = 0.0
+                for a in range(1, n):
+                    for b in range(1, n):
+                        if hD[b] - hD[a] > 2e-3:
+                            r1 = float(numpy.real(Rc[0][a, a, b, b]))
+                            r2 = float(numpy.real(Rc[1][a, a, b, b]))
+                            ref = abs(float(numpy.real(Rt_f[a, a, b, b])))
+                            tol = 3.0 * abs(float(numpy.real(
+                                Rt[a, a, b, b] - Rt_f[a, a, b, b]))) \
+                                + 1e-2 * ref
+                            raw_c = max(raw_c, abs(r1 - r2) / ref)
+                            worst_c = max(worst_c, abs(r1 - r2) / tol)
+                ck.case("cutoff-time-grid-independent", s, sample=dict(
+                    rp, cutoff=tcut, err=raw_c, err_over_tol=worst_c))
+                if raw_c == 0.0:
+                    raise MachineryFailure("cut-off clause compared nothing")
+                if worst_c > 1.0:
+                    ck.violation("golden-rule", "cutoff-time:grid-dependent",
+                                 dict(rp, cutoff=tcut, err=raw_c,
+                                      err_over_tol=worst_c), rp)
         # Foerster rates
         with ck.guarded("foerster-rates", "aggregate", rp, rp):
             KF = numpy.array(FoersterRateMatrix(ham, sbi).data)
